@@ -20,6 +20,7 @@ import (
 	"sort"
 	"strings"
 	"sync"
+	"sync/atomic"
 	"time"
 
 	"github.com/TarsCloud/TarsGo/tars"
@@ -723,6 +724,11 @@ func c11Monitor(c *c11Case, evs []c11Event) map[string]string {
 	return out
 }
 
+// c11Confirmed counts the scripts of this run whose failure was confirmed by re-runs.
+var c11Confirmed int32
+
+const c11ConfirmCap = 6
+
 // c11Run runs a script; a failure of a timing-dependent monitor counts only if it reproduces in three of up to
 // twelve immediate re-runs of the same script (every C11 monitor depends on the schedule, so all are treated so).
 func c11Run(c *c11Case) []Failure {
@@ -733,6 +739,12 @@ func c11Run(c *c11Case) []Failure {
 	}
 	first := c11Monitor(c, evs)
 	if len(first) == 0 {
+		return nil
+	}
+	if atomic.LoadInt32(&c11Confirmed) >= c11ConfirmCap {
+		// enough scripts have confirmed failures already: do not spend minutes on re-running the rest of a broken
+		// tree; this script's unconfirmed failure is dropped like any other unreproduced one
+		c.Events = nil
 		return nil
 	}
 	repro := map[string]int{}
@@ -774,6 +786,8 @@ func c11Run(c *c11Case) []Failure {
 	if len(fs) == 0 {
 		// not reproduced: keep the first log out of the model comparison as well (it was a timing artefact)
 		c.Events = nil
+	} else {
+		atomic.AddInt32(&c11Confirmed, 1)
 	}
 	return fs
 }
@@ -822,7 +836,7 @@ func c11Gen(tier string, rng *rand.Rand) []c11Case {
 	modes := []string{"close", "half", "rst", "restart", "idle", "push"}
 	delays := []int{0, 1000, 50000, 1200000}
 	var cs []c11Case
-	reps := 1
+	reps := 2
 	if tier == "thorough" {
 		reps = 30
 	}
